@@ -8,6 +8,7 @@ package main
 // Close frame every later write must fail with ErrCloseSent and leave the wire unchanged.
 
 import (
+	"io"
 	"errors"
 	"fmt"
 	"runtime"
@@ -833,6 +834,7 @@ func c15CloseWays(c *h.Ctx) {
 				fake := newWsFake(nil)
 				conn := ws.VerifNewConn(fake, server, 0, c15B, false)
 				in := fmt.Sprintf("close by the writer role=%s way=%s round=%d: WriteMessage(data); Close frame; two goroutines ping throughout", roleStr(server), []string{"WriteControl", "WriteMessage", "WritePreparedMessage"}[way], round)
+				data := h.LCGBytes(300+round, uint32(round))
 				stop := make(chan struct{})
 				var wg sync.WaitGroup
 				lastErr := make([]error, 2)
@@ -862,8 +864,22 @@ func c15CloseWays(c *h.Ctx) {
 					}(g)
 				}
 				res := h.Safe(func() string {
-					if err := conn.WriteMessage(ws.BinaryMessage, h.LCGBytes(300+round, uint32(round))); err != nil {
-						return "data: " + err.Error()
+					if round%2 == 0 {
+						if err := conn.WriteMessage(ws.BinaryMessage, data); err != nil {
+							return "data: " + err.Error()
+						}
+					} else {
+						// streamed from a source that hands its last bytes over together with io.EOF
+						w, err := conn.NextWriter(ws.BinaryMessage)
+						if err != nil {
+							return "data: " + err.Error()
+						}
+						if _, err := io.Copy(w, &wsChunkReader{data: append([]byte(nil), data...), ks: []int{100, 50}, eofWithData: true}); err != nil {
+							return "data copy: " + err.Error()
+						}
+						if err := w.Close(); err != nil {
+							return "data close: " + err.Error()
+						}
 					}
 					var err error
 					switch way {
@@ -901,14 +917,19 @@ func c15CloseWays(c *h.Ctx) {
 					c.Hold(lastErr[0] == ws.ErrCloseSent && lastErr[1] == ws.ErrCloseSent, "after_close.err_close_sent", in, fmt.Sprintf("pingers ended with %v / %v", lastErr[0], lastErr[1]), "ErrCloseSent")
 					rep := c.O.Call("ws.parse", roleStr(server), "0", h.Hex(fake.Written()))
 					okWire := strings.HasPrefix(rep, "ok ")
+					var payload []byte
 					if okWire {
 						fs := wsParseFrames(rep[3:])
 						okWire = len(fs) > 0 && fs[len(fs)-1].Op == 8
 						for _, f := range fs[:len(fs)-1] {
 							okWire = okWire && f.Op != 8
+							if f.Op == 2 || f.Op == 0 {
+								payload = append(payload, h.UnHex(f.Payload)...)
+							}
 						}
 					}
 					c.Hold(okWire, "after_close.nothing_follows", in, h.Trunc(rep, 300), "whole frames, exactly one Close frame, the last one")
+					c.Hold(!okWire || bytes.Equal(payload, data), "C15_wire.data_message_intact", in, fmt.Sprintf("%d payload bytes on the wire", len(payload)), fmt.Sprintf("the %d bytes written", len(data)))
 				}
 				c.Case(fmt.Sprintf("close-ways/%s/way=%d", roleStr(server), way), in, true)
 			}
